@@ -340,6 +340,8 @@ class Evaluator(object):
                 sub = None
                 if val is not None and val[0] == 'tup' and pat.get('dd') is None and i < len(val[1]):
                     sub = val[1][i]
+                elif val is not None and val[0] == 'call' and val[1] in ('std::slice::split_at', 'core::slice::split_at', 'std::slice::split_at_mut') and len(val[2]) == 2 and i < 2:
+                    sub = ('index', val[2][0], ('struct', 'std::ops::RangeTo', (('end', val[2][1]),), None) if i == 0 else ('struct', 'std::ops::RangeFrom', (('start', val[2][1]),), None))
                 elif val is not None:
                     sub = ('field', val, str(i))
                 self.bind_pat(sp, sub, env)
@@ -593,6 +595,10 @@ class Evaluator(object):
             return ('lit', H.lit_str(node['v']))
         if k == 'Field':
             base = self.eval(node['e'], env, guards, fn, chain)
+            if base is not None and base[0] == 'call' and base[1] in ('std::slice::split_at', 'core::slice::split_at', 'std::slice::split_at_mut') and len(base[2]) == 2 and node['name'] in ('0', '1'):
+                # s.split_at(n).0 is s[..n], .1 is s[n..]
+                rng = ('struct', 'std::ops::RangeTo', (('end', base[2][1]),), None) if node['name'] == '0' else ('struct', 'std::ops::RangeFrom', (('start', base[2][1]),), None)
+                return ('index', base[2][0], rng)
             rec = getattr(self, 'records', None)
             if rec:
                 import canon
@@ -776,6 +782,20 @@ class Evaluator(object):
                             self.emit('try', ('try', sv), node, guards, fn, chain)
                             self.try_ifs.add(node['sp'])
                             return ('unit',)
+            if extra is None and node.get('else') is None and c is not None and c[0] == 'call' and c[1] == 'std::result::Result::is_err' and len(c[2]) == 1 and self.block_diverges(node['then']):
+                inner = self.events[ev0:]
+                rets = [x for x in inner if x.kind == 'ret']
+                if len(rets) == 1 and rets[0].term is not None and rets[0].term[0] == 'call' and rets[0].term[1] == 'Err' and error_building_only(inner, rets[0].term):
+                    # `if r.is_err() { return Err(e) }` is the explicit spelling of `r.map_err(|_| e)?;`
+                    del self.events[ev0:]
+                    # the is_err call itself is not an effect either
+                    self.events[:] = [x for x in self.events if not (x.kind == 'call' and x.term == c)]
+                    for i_, x in enumerate(self.events):
+                        x.idx = i_
+                    sub = ('call', 'std::result::Result::map_err', (c[2][0], ('closure', 'explicit', (('$c0', -1),), rets[0].term[2][0])), ())
+                    self.emit('try', ('try', sub), node, guards, fn, chain)
+                    self.try_ifs.add(node['sp'])
+                    return ('unit',)
             s = 'if %s {%s}' % (cs, show(tt))
             if node.get('else') is not None:
                 ge = guards + [Guard((node['sp'], 'else', 'if', cs, c, extra))]
@@ -1007,6 +1027,14 @@ class Evaluator(object):
             ga = node.get('gargs') if node.get('k') == 'MethodCall' else (node.get('f') or {}).get('gargs')
             if ga:
                 npath = '<' + H.norm_path(self.tyenv.get(ga[0], ga[0])) + npath[npath.index(' as '):]
+        if npath in ('std::result::Result::and_then',) and len(args_nodes) == 2 and closure_node(args_nodes[1]) is not None and len(closure_node(args_nodes[1])['params']) == 1:
+            cn = closure_node(args_nodes[1])
+            x = self.eval(args_nodes[0], env, guards, fn, chain)
+            t = ('try', x)
+            self.emit('try', t, node, guards, fn, chain)
+            benv = dict(env)
+            self.bind_pat(cn['params'][0], t, benv)
+            return self.eval(cn['body'], benv, guards, fn, chain)
         if ndecl in ('std::iter::Iterator::try_for_each', 'std::iter::Iterator::for_each') and len(args_nodes) == 2 and closure_node(args_nodes[1]) is not None \
                 and len(closure_node(args_nodes[1])['params']) == 1:
             # `iter.try_for_each(|x| body)` / `iter.for_each(|x| body)`: the loop `for x in iter { body[?] }`
